@@ -35,7 +35,8 @@ structure Cfg where
 
 /-- `while self.ws.back().map(|b| b.start < now).unwrap_or(true) { push_back(next) }` (lines 55-62)
     with `next_start = back.start + slide`, or `now` for an empty deque. The loop runs at most
-    `now + 2` times when `slide ≥ 1` (`grow_fuel_enough` in Lemmas/TimeWindows); `fuel` makes the
+    `now + 2` times when `slide ≥ 1` (`grow_fuel_enough` / `grow_spec` in Lemmas/TimeWindows, restated as
+    `ptwin_deque_sorted` in Props/C14); `fuel` makes the
     recursion structural. With `slide = 0` the Rust loop would not terminate (excluded by the assert). -/
 def growLoop (c : Cfg) (now : Nat) : Nat → List (Slot α) → List (Slot α)
   | 0, ws => ws
